@@ -70,10 +70,17 @@ def label_value(idx: int, size: int, entries: str, additive: bool):
         return idx * 1.25 + 0.5
     if entries == "complex":
         return complex(idx + 1, scramble(idx))
+    if entries == "u8":  # narrow unsigned integers whose sums leave the dtype's range (added after seeded change C02-3)
+        return 100 + (idx * 37) % 150
+    if entries == "i8":
+        return 60 + (idx * 29) % 60
+    if entries == "bool":
+        return (idx * 7) % 3 != 1
     raise KeyError(entries)
 
 
-_DTYPES = {"sym": object, "pow": object, "int": np.int64, "intB": np.int64, "float": np.float64, "complex": np.complex128}
+_DTYPES = {"sym": object, "pow": object, "int": np.int64, "intB": np.int64, "float": np.float64, "complex": np.complex128,
+           "u8": np.uint8, "i8": np.int8, "bool": np.bool_}
 
 
 def labelled(rows: int, cols: int, entries: str, additive: bool = False) -> np.ndarray:
